@@ -450,13 +450,18 @@ DEFS = '''#define A 1
 #define pm(a, b) a- b
 #define pl(a, b) a+b
 #define XS(x) S(x)
+#define SX(x) #x x
 '''
 USES = ['A;', 'B;', 'F(2);', 'F(A);', 'F(B);', 'G(1, F(2));', 'G((1,2), 3);', 'G(F(1), G(2, 3));', 'S(a  +   b);', 'S(\n a \n b);', 'S( x\ny );', 'S("x\\"y" + \'c\');',
         'S(A);', 'S(F(1));', 'T(A, B);', 'T( p q ,r\ns);', 'V(1,2);', 'V((1,2),F(3));', 'W(1, 2, 3);', 'W(A,p\nq);', 'R;', 'R R;', 'P(1);', 'F\n(3);', 'F  (3);', 'N(4);', 'N;', 'F ;',
         'E() 5;', 'F(F(F(1)));', 'F(\n1\n);', 'G(1\n,\n2);', 'h w);', 'h 5);', 'm(t);', 'obj + A;', 'F(EMPTY) ;', 'F();', 'G(,);', 't(t(t(A)));', 'F(t)(5);', 'S(,);', 'S();',
         'A B F(1) G(2,3) S(z);', 'F((A));', 'F(G(1,2));', 't((w));', 'S(p   "a  b"   q);', 'S(\'"\');', "S('\\n');", "S('\\\\' + L'\\0');", 'S("a\\\\b" \'\\\'\');',
         # state must not leak from one invocation into the next (empty arguments, stringification through a second level)
-        'br(); XS(br(1)); XS(br());', 'pl(,3); XS(pl(1,2)); pl(4,); XS(pl(5,6));', 'XS(br()); br(2); XS(br(2));', 'F(); F(1); XS(F(2));', 'E() br(E()) XS(br(E()));', 'bs(); XS(bs(1)); XS(bs());', 'XS(bs(1)); bs(); XS(bs(1));', 'pm(1,); XS(pm(1,2)); pm(,2); XS(pm(3,4));']
+        'br(); XS(br(1)); XS(br());', 'pl(,3); XS(pl(1,2)); pl(4,); XS(pl(5,6));', 'XS(br()); br(2); XS(br(2));', 'F(); F(1); XS(F(2));', 'E() br(E()) XS(br(E()));', 'bs(); XS(bs(1)); XS(bs());', 'XS(bs(1)); bs(); XS(bs(1));', 'pm(1,); XS(pm(1,2)); pm(,2); XS(pm(3,4));',
+        # expanding the same thing twice gives the same result; a later #define is seen by earlier-defined macros
+        'B; B; N(1); N(1); R; R;', 'P(1); P(1);', 'h w); h w);',
+        # a parameter that is both stringized and substituted
+        'SX(a b);', 'SX(A);', 'SX(obj);', 'SX(F(1));', 'SX(t(t(A)) + E());', 'SX((F)(2));']
 BAD = [('F(1;', 'EOF'), ('G(1);', 'not enough'), ('F(1,2);', 'too many'), ('E(1);', 'too many')]
 
 REDEF = [
@@ -495,6 +500,10 @@ def compare(r, ra, prog, text, key, where):
         return
     got, depth, hidden = run.value
     ok = got == want
+    if not ok and 'SX(' in key and len(got) == len(want) and all(a == b or (a[0] == b[0] == 'TSTRINGLIT') for a, b in zip(got, want)):
+        r.violation('strtok-class: for a parameter used both as #x and as x, a function-like macro invocation inside the argument is stringized without its argument list', where,
+                    'e.g. %s: expected %s, cproc %s' % (key, ' '.join(s_ for _, s_ in want), ' '.join(s_ for _, s_ in got)))
+        return
     r.instance(ok, key, where, 'expansion differs:\n    expected: %s\n    cproc:    %s' % (' '.join(s for _, s in want), ' '.join(s for _, s in got)),
                sample='%s => %s' % (key, ' '.join(s for _, s in got)))
     if ra is not None:
@@ -522,6 +531,96 @@ def rule_expansion(chk, prog, tier):
         for ok, key, det, sample in i1: r.instance(ok, key, where, det, sample=sample)
         for ok, key, det, sample in i2: ra.instance(ok, key, where, det)
     r.exhaustive = False; ra.exhaustive = False
+
+
+def gen_pp_program(rnd):
+    """random macro set + invocations (object-like, 0/1/2-parameter, variadic and stringizing macros, nested and repeated uses)"""
+    names = ['A', 'B', 'C', 'F', 'G', 'H', 'S', 'V']
+    chosen = rnd.sample(names, rnd.randint(2, 5))
+    kinds = {nm: rnd.choice(['obj', 'fn1', 'fn2', 'fn0', 'var', 'str']) for nm in chosen}
+    def body(params, depth=0):
+        toks = []
+        for _ in range(rnd.randint(0, 4)):
+            r = rnd.random()
+            if r < 0.3 and params: toks.append(rnd.choice(params))
+            elif r < 0.5: toks.append(rnd.choice(chosen))
+            elif r < 0.6 and depth < 1:
+                c = rnd.choice(chosen); toks.append(c + '(' + ','.join(' '.join(body(params, depth + 1)) for _ in range(rnd.randint(0, 2))) + ')')
+            elif r < 0.8: toks.append(rnd.choice(['1', '2', '+', '*', 'x', 'y']))
+            else: toks.append(rnd.choice(['1', 'x']))
+        return toks
+    defs = []
+    for nm in chosen:
+        k = kinds[nm]
+        if k == 'obj': defs.append('#define %s %s' % (nm, ' '.join(body([]))))
+        elif k == 'fn0': defs.append('#define %s() %s' % (nm, ' '.join(body([]))))
+        elif k == 'fn1': defs.append('#define %s(a) %s' % (nm, ' '.join(body(['a']))))
+        elif k == 'fn2': defs.append('#define %s(a, b) %s' % (nm, ' '.join(body(['a', 'b']))))
+        elif k == 'var': defs.append('#define %s(a, ...) %s' % (nm, ' '.join(body(['a', '__VA_ARGS__']))))
+        else: defs.append('#define %s(a) #a %s' % (nm, ' '.join(body([]))))
+    def use(depth=0):
+        nm = rnd.choice(chosen); k = kinds[nm]
+        def arg():
+            r = rnd.random()
+            if r < 0.3 and depth < 2: return use(depth + 1)
+            if r < 0.5: return rnd.choice(chosen)
+            if r < 0.6: return ''
+            if r < 0.7: return '(1,2)'
+            return rnd.choice(['1', 'x', '1 + 2', 'x y'])
+        if k == 'obj': return nm
+        if k == 'fn0': return nm + '()'
+        if k in ('fn1', 'str'): return '%s(%s)' % (nm, arg())
+        if k == 'fn2': return '%s(%s, %s)' % (nm, arg(), arg())
+        return '%s(%s)' % (nm, ', '.join(arg() for _ in range(rnd.randint(2, 3))))
+    us = [use() for _ in range(rnd.randint(1, 3))]
+    if rnd.random() < 0.5: us.append(us[0])          # the same invocation again
+    return '\n'.join(defs) + '\n' + ' ; '.join(us) + ' ;\n'
+
+
+def rule_random(chk, prog, tier):
+    r = chk.rule('C12.g', 'randomly generated macro sets (object-like, function-like with 0-2 parameters, variadic, stringizing; nested, recursive and repeated invocations) expand to the token sequence of the reference expander', floor=100,
+                 oracle='reference hide-set expander in props/c12.py (C11 6.10.3.1-6.10.3.4); invocations whose result C11 leaves unspecified (6.10.3.4p4) are not judged')
+    import random, par
+    rnd = random.Random(2026)
+    N = 260 if tier == 'quick' else 2500
+    texts = []; seen = set()
+    while len(texts) < N:
+        t = gen_pp_program(rnd)
+        if t in seen: continue
+        seen.add(t); texts.append(t)
+    def work(chunk):
+        out = []
+        for text in chunk:
+            try:
+                want = reference(text); werr = None
+            except RefError as e:
+                want = None; werr = str(e)
+            except Unspecified:
+                out.append((text, 'unjudged', None)); continue
+            run = implementation(prog, text, max_steps=3000000)
+            if run.outcome == 'unsupported':
+                out.append((text, 'unsupported', str(run.detail))); continue
+            if want is None:
+                out.append((text, 'ok' if run.outcome == 'terminal:error' else 'accepts', werr)); continue
+            if run.outcome != 'return':
+                out.append((text, 'unjudged' if 'arguments for macro' in str(run.detail) else 'rejects', str(run.detail))); continue
+            got = run.value[0]
+            if got == want: out.append((text, 'ok', None)); continue
+            if len(got) == len(want) and all(a == b or (a[0] == b[0] == 'TSTRINGLIT' and b[1].startswith(a[1][:-1])) for a, b in zip(got, want)):
+                out.append((text, 'strtok', None)); continue
+            out.append((text, 'differs', 'expected: %s | cproc: %s' % (' '.join(s_ for _, s_ in want), ' '.join(s_ for _, s_ in got))))
+        return out
+    unj = 0
+    for res in par.pmap(work, [texts[k::32] for k in range(32)]):
+        for text, verdict, det in res:
+            key = 'random: ' + text.strip().replace('\n', ' \\n ')
+            if verdict == 'unsupported': raise AnalysisBroken('pp interpretation: %s on %r' % (det, text))
+            if verdict in ('unjudged', 'strtok'): unj += 1; continue        # argument-count rules differ between C11 and C23; the strtok class is KF-C12-2 (reported by C12.e)
+            if verdict == 'accepts' and det == 'too many arguments': unj += 1; continue       # KF-C12-1 class (reported by C12.e)
+            msg = {'accepts': 'ill-formed (%s) but accepted' % det, 'rejects': 'valid input rejected: %s' % det, 'differs': det}.get(verdict, '')
+            r.instance(verdict == 'ok', key, 'pp.c', msg)
+    r.samples.append('%d programs, %d not judged' % (len(texts), unj))
+    r.exhaustive = False
 
 
 def rule_redef(chk, prog, tier):
@@ -559,3 +658,4 @@ def run(chk, tier):
     chk.guard('C12.e', lambda: rule_expansion(chk, prog, tier))
     chk.guard('C12.b', lambda: rule_redef(chk, prog, tier))
     chk.guard('C12.c', lambda: rule_directives(chk, prog, tier))
+    chk.guard('C12.g', lambda: rule_random(chk, prog, tier))
